@@ -145,6 +145,10 @@ type c11Case struct {
 	GCAfter      int     `json:"gc_after"`
 	BackgroundGC bool    `json:"background_gc"`
 	RetainBanks  bool    `json:"retain_banks"`
+	// Choices, if set: the records are decoded from a file another writer might have
+	// produced from the same data — arrays and maps split into blocks of any sizes,
+	// with or without byte sizes (the reference writer, these encoding choices).
+	Choices []byte `json:"choices,omitempty"`
 }
 
 var c11Sink []interface{}
@@ -177,9 +181,25 @@ func runC11InWorker(c c11Case) error {
 		return err
 	}
 	// encode side: what was written under the GC schedule is what was given
-	schema, _, blocks, err := ref.ReadRecords(file)
+	schema, lay, blocks, err := ref.ReadRecords(file)
 	if err != nil {
 		return fmt.Errorf("file written while collections ran is not valid: %v", err)
+	}
+	if len(c.Choices) > 0 {
+		fs := ref.FileSpec{Schema: lay.Meta["avro.schema"], Codec: ec.Compression, Sync: lay.Sync}
+		enc := ref.Encoder{C: &ref.Choices{Bits: c.Choices}}
+		for _, b := range blocks {
+			var payload []byte
+			for _, d := range b {
+				if payload, err = enc.Encode(payload, schema, d); err != nil {
+					return fmt.Errorf("VERIF-INCONCLUSIVE harness: %v", err)
+				}
+			}
+			fs.Blocks = append(fs.Blocks, ref.Block{Count: int64(len(b)), Payload: payload})
+		}
+		if file, _, err = ref.WriteFile(fs); err != nil {
+			return fmt.Errorf("VERIF-INCONCLUSIVE harness: %v", err)
+		}
 	}
 	i := 0
 	for _, b := range blocks {
@@ -293,7 +313,12 @@ func drawC11(t *rapid.T) c11Case {
 	}
 	c.Enc.GoType = c.Enc.Type.GoString()
 	n := gen.UniformRange(t, "nrecords", 1, 4)
-	c.Enc.Records = gen.Records(t, c.Enc.Type, n, gen.ValueOpts{MaxElems: 3})
+	vo := gen.ValueOpts{MaxElems: 3}
+	if gen.Uniform(t, "otherWriter", 3) == 0 {
+		c.Choices = gen.ChoiceBytes(t, "choices", gen.UniformRange(t, "nchoices", 8, 60))
+		vo = gen.ValueOpts{MaxElems: 9, Big: true, NoHuge: true}
+	}
+	c.Enc.Records = gen.Records(t, c.Enc.Type, n, vo)
 	c.Enc.Compression = drawCompression(t)
 	c.Enc.BlockSize = []int{0, 40, 1 << 20}[gen.Uniform(t, "blocksize", 3)]
 	for i := 0; i < n; i++ {
